@@ -1480,6 +1480,38 @@ namespace bloch::compiler {
         if (auto newExpr = dynamic_cast<NewExpression*>(expr)) {
             return typeFromAst(newExpr->classType.get());
         }
+        // An assignment used as a value has the declared type of what it assigns to (the
+        // evaluator yields the stored value; for an element assignment, the whole array).
+        if (auto asg = dynamic_cast<AssignmentExpression*>(expr)) {
+            TypeInfo local = getVariableType(asg->name);
+            if (local.value != ValueType::Unknown || !local.className.empty())
+                return local;
+            if (auto field = resolveField(asg->name, asg->line, asg->column))
+                return field->type;
+            return combine(ValueType::Unknown, "");
+        }
+        if (auto masg = dynamic_cast<MemberAssignmentExpression*>(expr)) {
+            auto obj = inferTypeInfo(masg->object.get());
+            if (!obj.className.empty()) {
+                TypeInfo searchType = obj;
+                if (obj.isTypeParam) {
+                    auto bound = getTypeParamBound(obj.className);
+                    if (bound && !bound->className.empty())
+                        searchType = *bound;
+                }
+                if (auto* field = findFieldInHierarchy(searchType, masg->member)) {
+                    if (!searchType.typeArgs.empty()) {
+                        if (const ClassInfo* ci = findClass(searchType.className))
+                            return substituteTypeParams(field->type, ci->typeParams,
+                                                        searchType.typeArgs);
+                    }
+                    return field->type;
+                }
+            }
+            return combine(ValueType::Unknown, "");
+        }
+        if (auto aasg = dynamic_cast<ArrayAssignmentExpression*>(expr))
+            return inferTypeInfo(aasg->collection.get());
         return combine(ValueType::Unknown, "");
     }
 
